@@ -18,6 +18,9 @@ from vlib import run_driver_parallel, coq_eval, warm_config, trace_to_coq, unhex
 import fsmodel as F
 from props.C14 import diff, snapmap
 
+# the case files of this check import the monitors: keep them compiled against the current generated constants
+COQ_TARGETS = ("theories/Replay.vo", "theories/Discipline.vo", "theories/FdBalance.vo", "proofs/MonitorProofs.vo")
+
 RES = 16 | 2
 
 
@@ -72,7 +75,10 @@ def run(ck):
     for _ in range(50 if thorough else 10):
         g = rng.choice(GROUPS)
         jid += 1
-        cjobs.append({"id": jid, "tree": tree, "op": {"k": "concurrent", "ops": [{"k": "mkdir_all", "path": H(p), "mode": 0o755} for p in g]},
+        # half of the groups: every caller asks for its own mode (whoever creates a component first decides its mode; the others
+        # find it there and must carry on)
+        modes = [0o755] * len(g) if rng.random() < 0.5 else [rng.choice([0o700, 0o755, 0o750, 0o711, 0o1777]) for _ in g]
+        cjobs.append({"id": jid, "tree": tree, "op": {"k": "concurrent", "ops": [{"k": "mkdir_all", "path": H(p), "mode": m_} for p, m_ in zip(g, modes)]},
                       "post_raws": [{"path": H(p), "flags": O["PATH"], "resolve": RES} for p in g], "meta": {"paths": g}})
     byid = {j["id"]: j for j in jobs + cjobs}
     stats = {"ops": 0, "created_ok": 0, "failed": 0, "races": 0, "t1_ok": 0, "t1_bad": 0, "chain_len": {}, "mode_refused": 0}
